@@ -340,6 +340,30 @@ def concrete_integer_powers(rep):
     rep.extra["concrete_integer_powers"] = n
 
 
+def concrete_integer_scale(rep):
+    """center / scale / standardize on columns of integer dtype: mean zero (and unit deviation for
+    scale) up to rounding (plain API; the symbolic cases range over reals, not over numpy dtypes)"""
+    from formulae import design_matrices
+
+    n = 0
+    for dt, vals in (("int8", [3, -5, 11, 100]), ("int32", [2019, 46341, -70000, 6]), ("int64", [2, 3, 3, 5]), ("uint8", [200, 16, 3, 254]), ("bool", [True, False, False, True, True])):
+        df = pd.DataFrame({"y": [0.5 + i for i in range(len(vals))], "k": np.array(vals, dtype=dt)})
+        for fn in ("center", "scale", "standardize"):
+            n += 1
+            name = f"{fn}(k)"
+            try:
+                c = np.asarray(design_matrices(f"y ~ 0 + {name}", df).common[name], dtype=float).reshape(-1)
+            except Exception as e:  # noqa
+                rep.violations.append({"label": "a valid transform call is refused", "signature": {"what": "integer column", "fn": fn, "dtype": dt, "exc": type(e).__name__}, "replay": {"dtype": dt, "fn": fn}, "reproduced": True, "detail": f"{name} on {dt}: {type(e).__name__}: {e}"[:200]})
+                continue
+            mag = max(1.0, float(np.max(np.abs(c))))
+            bad = abs(float(c.mean())) > 1e-9 * mag or (fn != "center" and abs(float(c.std()) - 1.0) > 1e-9)
+            if bad:
+                rep.violations.append({"label": "the transformed training column has mean zero (scale: unit deviation)", "signature": {"what": "integer column", "fn": fn, "dtype": dt}, "replay": {"dtype": dt, "fn": fn, "values": [float(v) for v in vals], "got": c.tolist()},
+                                       "reproduced": True, "detail": f"{name} on an {dt} column {list(vals)}: mean {float(c.mean())!r}, std {float(c.std())!r}"[:300]})
+    rep.extra["concrete_integer_scale"] = n
+
+
 def run(tier, seed):
     rep = core.Report(ID, tier, seed)
     rep.functions = ["formulae.transforms.Center.__call__", "formulae.transforms.Scale.__call__", "formulae.transforms.Polynomial.__call__/eval (raw and three-term recurrence, object work buffer)",
@@ -357,5 +381,6 @@ def run(tier, seed):
     rep.rule = "one case = one transform scenario / one bs parameter combination; non-trivial = all"
     pipe.run_cases(rep, "vf.props.c14", "harness", cs, timeout_ms=60000)
     concrete_integer_powers(rep)
+    concrete_integer_scale(rep)
     rep.nontrivial = rep.cases
     return core.finish(rep)
